@@ -62,6 +62,7 @@ func AsyncMapReduce[T, P, A any](
 	go func() {
 		simhook.Start(rtok)
 		defer simhook.Exit()
+		simhook.SelectLoop()
 		for {
 			select {
 			case res := <-resChan:
